@@ -268,3 +268,36 @@ def h5_analysis(ctx, first):
     for i in range(2):
         ctx.oblige(f'rms_repeat_{i}', ctx.eq(r2[i][0], r1[i][0]))
     ctx.observe('cy', c1[1][1])
+
+
+@harness('C13', 'H4b_iterative_surface_bundle', funcs=FUNCS, cases=lambda tier: [dict(other='axial'), dict(other='twin')],
+         bounds='even asphere (R = -2, one symbolic r^2 coefficient, symbolic tolerance, max_iter = 2): a skew ray (chord slope -2, direction '
+                '(2,-3,6)/7) traced alone and in a 2-ray bundle whose other ray is the axial ray (converged from the start) or a copy of itself',
+         doc='the distance found for a ray by the iterative intersection does not depend on the other rays traced in the same call (when no '
+             'ray is lost, the bundle needs exactly as many iterations as its slowest ray, which here is the ray itself)')
+def h4b_iterative_bundle(ctx, other):
+    from optiland.coordinate_system import CoordinateSystem
+    from optiland.geometries import EvenAsphere
+    from optiland.rays import RealRays
+    from checks.C07 import ray_to_surface_point, rational
+    R = ctx.const(-2.0)
+    c1 = ctx.real('c1', lo=-0.01, hi=0.01)
+    tol = ctx.real('tol', lo=1e-9, hi=1e-3)
+    P0, d, P, tau = ray_to_surface_point(ctx, R, 0.0, sl=rational(ctx, -2, 1), tau=ctx.const(1.0))
+    second = dict(x=0.0, y=0.0, z=-1.0, L=0.0, M=0.0, N=1.0)
+    out = []
+    for bundle in (False, True):
+        g = EvenAsphere(CoordinateSystem(), R, 0.0, tol=tol, max_iter=2, coefficients=[c1])
+        rays = RealRays(0.0, 0.0, 0.0, 0.0, 0.0, 1.0, 1.0, 0.55)
+        for nm, v in zip(('x', 'y', 'z', 'L', 'M', 'N'), tuple(P0) + tuple(d)):
+            if bundle:
+                setattr(rays, nm, ctx.arr(v, second[nm] if other == 'axial' else v))
+            else:
+                setattr(rays, nm, ctx.arr(v))
+        out.append(ctx.vals(g.distance(rays))[0])
+    a, b = out
+    if ctx.finite(a) and ctx.finite(b):
+        ctx.oblige('same_distance_alone_and_in_the_bundle', ctx.eq(a, b))
+    else:
+        ctx.oblige('lost_together', (not ctx.finite(a)) and (not ctx.finite(b)))
+    ctx.observe('t', a)
